@@ -377,9 +377,18 @@ def run_chunk(cases):
                 try:
                     if c[0] == "chain":
                         # a op1 b op2 c short-circuits; the property is about each operation being performed
-                        val = eval(f"({c[1]}) {c[2]} ({c[3]})", ns)
-                        val2 = eval(f"({c[3]}) {c[4]} ({c[5]})", ns)
-                        val = bool(val) and bool(val2)
+                        excs, vals = [], []
+                        for link in (f"({c[1]}) {c[2]} ({c[3]})", f"({c[3]}) {c[4]} ({c[5]})"):
+                            try:
+                                vals.append(bool(eval(link, ns)))
+                            except Exception as ex1:
+                                excs.append(ex1)
+                        for ex1 in excs:  # a TypeError of any link is what must be diagnosed
+                            if isinstance(ex1, TypeError):
+                                raise ex1
+                        if excs:
+                            raise excs[0]
+                        val = all(vals)
                     elif c[0] == "aug":
                         loc = {}
                         exec(f"_t = ({c[2]})\n_t {c[1]}= ({c[3]})", ns, loc)
